@@ -12,6 +12,7 @@ package vsync
 import (
 	"bytes"
 	"fmt"
+	"io"
 	"runtime"
 	"strconv"
 	gosync "sync"
@@ -470,5 +471,18 @@ func scribble(v any) {
 		}
 	case interface{ Bytes() []byte }:
 		fill(t.Bytes())
+	case interface{ Reset(io.Reader) }: // *bufio.Reader: later reads through it see its next owner's data
+		t.Reset(poisonSource{})
+	case interface{ Reset(io.Writer) }: // *bufio.Writer: later writes go elsewhere
+		t.Reset(io.Discard)
 	}
+}
+
+type poisonSource struct{}
+
+func (poisonSource) Read(b []byte) (int, error) {
+	for i := range b {
+		b[i] = 0xDB
+	}
+	return len(b), nil
 }
